@@ -672,6 +672,16 @@ func (s *Searcher) handleSortIndexWithFilter(qsr *query.QuerySegmentRequest, lin
 		return nil, err
 	}
 
+	// The matched records come back in record order, not in the order of the sort index lines they were picked
+	// from. The caller merges these batches as sorted streams and cuts them at the remaining sort limit, so they
+	// have to be in sort order.
+	sorter := &sortProcessor{options: s.sortExpr}
+	err = iqr.Sort(sorter.getSortColumns(), sorter.less, math.MaxInt32)
+	if err != nil {
+		log.Errorf("qid=%v, handleSortIndexWithFilter: failed to sort the matched records: %v", s.qid, err)
+		return nil, err
+	}
+
 	return iqr, nil
 }
 
